@@ -86,8 +86,13 @@ def _run_check(pid, P, fam, tier, seed, work, t0):
         rf = os.path.join(work.dir, "replay-in-%d.json" % n)
         with open(rf, "w") as f:
             json.dump(inputs[tid], f)
-        _, _, val2 = _drive_and_validate(work, fam, P, tier, seed, binary, "repro-%d" % n, replay_file=rf)
-        again = [v for v in val2["viols"] if v["prop"] == pid and not known.match(findings, v, inputs[tid])]
+        again = []
+        # schedule-dependent families get several attempts: the same seeded schedule does not always hit the same window
+        for attempt in range(fam.get("repro_attempts", 1)):
+            _, _, val2 = _drive_and_validate(work, fam, P, tier, seed, binary, "repro-%d-%d" % (n, attempt), replay_file=rf)
+            again = [v for v in val2["viols"] if v["prop"] == pid and not known.match(findings, v, inputs[tid])]
+            if again:
+                break
         if again:
             path = write_replay(pid, n, dict(property=pid, family=P["family"], input=inputs[tid], seed=seed, tier=tier,
                                              violations=[dict(aspect=v["aspect"], detail=v["detail"], line=v["i"]) for v in again[:10]]))
@@ -96,6 +101,7 @@ def _run_check(pid, P, fam, tier, seed, work, t0):
             log("violation: input=%s aspects=%s" % (json.dumps(inputs[tid])[:300], sorted({v["aspect"] for v in again})))
         else:
             unreproduced += 1
+            log("NOT REPRODUCED in isolation: input=%s aspects=%s detail=%s" % (json.dumps(inputs[tid])[:300], sorted({v["aspect"] for v in vs}), vs[0]["detail"][:300]))
     if len(unknown) > 3 and violations:
         log("%d further violating input(s) not reproduced individually" % (len(unknown) - 3))
 
